@@ -63,10 +63,10 @@ CHECKS = {
          "exhaustive enumeration of payload lengths near both limits x buffer lengths around the predicted length for every message of every handshake name, every truncation length on reads, transport likewise",
          "A successful write returns exactly the predicted length, never more than 65535 nor than the buffer, bytes beyond it untouched; a write that cannot fit fails with Error::Input; reads of >65535 bytes or fewer than the fixed fields fail; a successful read returns length minus overhead.",
          "Success with an exactly fitting buffer is not demanded (snow's 16 spare bytes rule for clear payloads is accepted either way)."),
- "C16": ("model_checking", "E1 (executor) + E3 shuttle::check_dfs at cipher-call seams + labelled free-running sample",
+ "C16": ("model_checking", "E1 (executor) + E3 shuttle::check_dfs at cipher-call seams, and on a shuttle-mapped copy of /repo/src when snow contains sync primitives; + labelled free-running sample",
          "exhaustive enumeration of call orders/repetitions and of every interleaving (shuttle depth-first search, no sampling) of the pre-cipher/cipher/post-cipher segments of concurrent stateless calls on a shared state; differential against the stateful sender",
          "Stateless round trips for an 80-nonce alphabet x 4 sizes, all 120 orders x 3 repetitions of five calls, equality with the stateful sender for n in 0..=8, 8 large nonces (via the nonce hook) and the 65519-byte payload; 2x2 and 3x1 thread mixes (923 / 25 424 / 2 274 schedules each) all return what the sequential function returns.",
-         "snow has no lock/atomic/cell: preemptions inside a segment are covered by the type system, not the exploration; the free-running real-thread run is a sample and labelled so."),
+         "On the pinned tree snow has no lock/atomic/cell (scanned on every run): preemptions inside a segment are covered by the type system. When /repo/src mentions any sync primitive the exploration is repeated on a copy whose std/core sync primitives are mapped to shuttle's (every atomic/lock op a scheduling point). The free-running real-thread run is a sample and labelled so."),
  "C17": ("model_checking", "E1 product (executor, pattern-derived model)",
          "exhaustive enumeration of handshake names x DH x supplied-key variants x transport modes, getter compared at every point of the session including around failing calls",
          "get_remote_static equals the model at every point: absent before the pattern conveys the key, exactly the peer's full public key (32 / 65 bytes) afterwards, identical across HandshakeState, TransportState and StatelessTransportState, unaffected by failing calls.",
@@ -114,7 +114,7 @@ def main():
             na.append({"property_id": pid, "reason": NOT_YET})
     m = {
         "version": 1,
-        "setup_cmd": "cd /verif/harness && CARGO_NET_OFFLINE=true cargo build --release --offline -p snowmc",
+        "setup_cmd": "cd /verif/harness && CARGO_NET_OFFLINE=true cargo build --release --offline -p snowmc && cd /verif/harness-c16x && ./gen.sh && CARGO_NET_OFFLINE=true cargo build --release --offline",
         "hooks": {
             "guard": "cargo feature `verif-hooks` of snow (off by default)",
             "enable": "the harness crate depends on snow with features = [\"verif-hooks\"] (path dependency on /repo); nothing else sets it",
